@@ -9,6 +9,7 @@
 (*            block (backwards / duplicate) | last byte | end | 2^31-1 |   *)
 (*            2^32-1                                                       *)
 (*   name     block name := unknown ASCII | non-UTF-8 | lower case         *)
+(*   name-near  "SW" + TAB/LF/VT/FF/CR, own name with last char TAB / NUL  *)
 (*   gates    number_of_data_moment_gates := 65535                         *)
 (*   word     data_word_size := 0 | 7 | 9 | 255                            *)
 (*   gates+word  gates in {65535, 40000, 4096} together with word 16 | 255 *)
@@ -48,6 +49,11 @@ FaultsOf(mm) ==
             : j \in 1..n, t \in 1..9}
    \cup {<<"name", j * 10 + t, SetBytes(bs, PtrValue(mm, j) + 1, CASE t = 1 -> <<88, 89, 90>> [] t = 2 -> <<255, 254, 253>> [] OTHER -> <<114, 101, 102>>)>>
             : j \in 1..n, t \in 1..3}
+   (* near misses of a known name: "SW" followed by each ASCII white-space character other than the blank the ICD pads with (a name
+      check that trims white space accepts them, a dispatch on the exact name does not), and the block's own name with its last
+      character replaced by TAB or NUL *)
+   \cup {<<"name-near", j * 100 + c, SetBytes(bs, PtrValue(mm, j) + 1, <<83, 87, c>>)>> : j \in 1..n, c \in {9, 10, 11, 12, 13}}
+   \cup {<<"name-near", j * 100 + 50 + c, SetBytes(bs, PtrValue(mm, j) + 3, <<c>>)>> : j \in 1..n, c \in {9, 0}}
    \cup {<<"gates", j, SetBytes(bs, PtrValue(mm, j) + OffsetOf(GenL, "number_of_data_moment_gates"), <<255, 255>>)>> : j \in {x \in 1..n : mm.blocks[mm.ptrs[x]].p \in Moments}}
    \cup {<<"word", j * 1000 + w, SetBytes(bs, PtrValue(mm, j) + OffsetOf(GenL, "data_word_size"), <<w>>)>> : j \in {x \in 1..n : mm.blocks[mm.ptrs[x]].p \in Moments}, w \in {0, 7, 9, 255}}
    \cup {<<"gates+word", j * 1000 + w, SetBytes(SetBytes(bs, PtrValue(mm, j) + OffsetOf(GenL, "number_of_data_moment_gates"), g), PtrValue(mm, j) + OffsetOf(GenL, "data_word_size"), <<w>>)>>
